@@ -6,6 +6,7 @@ import ast
 
 from gv import rules
 from gv.astutil import AnalysisError
+from gv.astutil import arg_or_kw
 from gv.astutil import as_update
 from gv.astutil import decorator_names
 from gv.astutil import dotted
@@ -414,80 +415,308 @@ def check_doe(ctx: Ctx) -> None:
 FDF = "utils/derivatives/finite_differences.py"
 
 
+def _element_text(e: ast.AST, var: str | None) -> str:
+    """Text of ``e`` with the iteration variable ``var`` called ``i`` (so that `xs[:, j]` of a comprehension over j
+    and `xs[:, k]` of a loop over k are the same element)."""
+    import copy
+
+    e = copy.deepcopy(e)
+    for n_ in ast.walk(e):
+        if isinstance(n_, ast.Name) and var is not None and n_.id == var:
+            n_.id = "i"
+    return norm_stmt(e)
+
+
 def check_optimal_step_slots(ctx: Ctx) -> None:
     """13.6: in the parallel branch of FirstOrderFD.compute_optimal_step every output is read from the slot of
-    the point it was computed at (the task list is [x] + forward points + backward points)."""
+    the point it was computed at (the task list is [x] + forward points + backward points).
+
+    The task list is understood whether it is built by ``+``, ``+=``, ``extend``/``append``, unpacking or in the call;
+    an output is understood whether it is read as ``outputs[k]``, through a slice of the outputs or as the element of a
+    loop over (a zip / an enumeration of) such slices; a value of the parallel branch and a value of the sequential
+    branch are the same quantity when they reach the same argument of the same consumer (``comp_step(f_p, f_0, f_m)``).
+    """
     import sympy as sp
 
     f = ctx.index.method(FDF, "FirstOrderFD", "compute_optimal_step")
     con = cname(FDF, "FirstOrderFD", "compute_optimal_step")
-    ex = [st for st in stmts_of(f) if isinstance(st, ast.Assign) and isinstance(st.value, ast.Call) and last_attr(st.value) == "execute" and "parallel" in norm_stmt(st.value.func)]
-    if len(ex) != 1 or not ex[0].value.args or not isinstance(ex[0].value.args[0], ast.Name):
+    cfg = cfg_of(f)
+    sv = SymValues(f)
+    comp_vars = {id(n_) for c_ in ast.walk(f) if isinstance(c_, ast.comprehension) for n_ in ast.walk(c_.target)}
+
+    def binders(name: str) -> set[int]:
+        """CFG nodes that bind the local ``name`` (the variables of comprehensions are not locals)."""
+        return {cfg.node_of(n_) for n_ in walk_body(f) if isinstance(n_, ast.Name) and isinstance(n_.ctx, (ast.Store, ast.Del)) and n_.id == name and id(n_) not in comp_vars and cfg.has(n_)}
+
+    def is_parallel_execute(c: ast.AST) -> bool:
+        if not (isinstance(c, ast.Call) and last_attr(c) == "execute" and isinstance(c.func, ast.Attribute)):
+            return False
+        if "parallel" in norm_stmt(c.func):
+            return True
+        try:
+            return any("ParallelExecution(" in t for t in sv.texts(c.func.value))
+        except Exception:  # noqa: BLE001
+            return False
+
+    ex = [st for st in stmts_of(f) if isinstance(st, ast.Assign) and len(st.targets) == 1 and isinstance(st.targets[0], ast.Name) and is_parallel_execute(st.value)]
+    task_list = arg_or_kw(ex[0].value, 0, "inputs") if len(ex) == 1 else None
+    if task_list is None or set(binders(ex[0].targets[0].id)) != {cfg.node_of(ex[0])}:
         ctx.ob("13.7-slots", con, False, "the parallel evaluation of the perturbed points was not recognised (outputs = parallel_execution.execute(<list of points>))", node=f, stmt="parallel evaluation recognised")
         return
-    out_var, pts = dotted(ex[0].targets[0]), ex[0].value.args[0].id
-    # segments of the task list: (offset, size, source array or None for the base point, index variable)
-    segs = []
-    offset = sp.Integer(0)
+    out_var = ex[0].targets[0].id
+    I = sp.Symbol("i", integer=True, nonnegative=True)
 
-    def add(e):
-        nonlocal offset
-        if isinstance(e, ast.BinOp) and isinstance(e.op, ast.Add):
-            add(e.left)
-            add(e.right)
-        elif isinstance(e, ast.List):
-            for x in e.elts:
-                segs.append((offset, sp.Integer(1), norm_stmt(x), None))
-                offset += 1
-        elif isinstance(e, ast.ListComp) and len(e.generators) == 1 and isinstance(e.generators[0].iter, ast.Call) and dotted(e.generators[0].iter.func) == "range" and len(e.generators[0].iter.args) == 1:
-            n = sp.Symbol(norm_stmt(e.generators[0].iter.args[0]), integer=True, positive=True)
-            src = e.elt.value if isinstance(e.elt, ast.Subscript) else e.elt
-            segs.append((offset, n, norm_stmt(src), dotted(e.generators[0].target)))
-            offset += n
-        else:
-            raise AnalysisError(f"compute_optimal_step: task list segment `{norm_stmt(e, 50)}` not understood")
+    def only_def(name: str) -> ast.AST | None:
+        """The value of the local ``name`` when it is bound exactly once, by a plain assignment."""
+        bs = binders(name)
+        if len(bs) == 1:
+            st = cfg.ast[next(iter(bs))]
+            if isinstance(st, ast.Assign) and len(st.targets) == 1 and isinstance(st.targets[0], ast.Name):
+                return st.value
+        return None
 
-    for st in stmts_of(f):
-        if isinstance(st, ast.Assign) and dotted(st.targets[0]) == pts:
-            add(st.value)
-        elif isinstance(st, ast.AugAssign) and dotted(st.target) == pts and isinstance(st.op, ast.Add):
-            add(st.value)
-    reads = [n for n in walk_body(f) if isinstance(n, ast.Subscript) and dotted(n.value) == out_var]
-    seen = {}
-    for rd in reads:
-        st = rules.enclosing_stmt(f, rd)
-        if not (isinstance(st, ast.Assign) and isinstance(st.targets[0], ast.Name)):
-            continue
-        loop = next((lp for lp in stmts_of(f) if isinstance(lp, ast.For) and st in list(ast.walk(lp)) and isinstance(lp.iter, ast.Call) and dotted(lp.iter.func) == "range"), None)
-        env = {}
-        if loop is not None:
-            env[dotted(loop.target)] = sp.Symbol("i", integer=True, nonnegative=True)
+    def loop_roles(name: str, at: ast.AST) -> tuple | None:
+        """What the loop variable ``name`` read at ``at`` stands for: ("index",) for the position 0, 1, ... of the
+        iteration, ("elem", xs) for the element of ``xs`` at that position; None when it is not (only) a loop variable."""
+        if not cfg.has(at):
+            return None
+        # the bindings of the name that can be read at ``at`` are loop headers only (a name bound by a loop in one
+        # branch and by an assignment in the other is a loop variable where the loop's binding is the one read)
+        bs = _reaching(cfg, binders(name), cfg.entry, cfg.node_of(at), set())
+        if not bs or not all(b is not None and isinstance(cfg.ast[b], ast.For) for b in bs):
+            return None
+        loops = [lp for lp in stmts_of(f) if isinstance(lp, ast.For) and cfg.node_of(lp) in bs and any(sub is at for b_ in lp.body for sub in ast.walk(b_))]
+        if not loops:
+            return None
+        lp = loops[-1]  # the innermost one
+        found: dict[str, tuple] = {}
+        dup = set()
+
+        def bind(t: ast.AST, it: ast.AST) -> None:
+            fn = dotted(it.func) if isinstance(it, ast.Call) else None
+            plain = isinstance(it, ast.Call) and not any(isinstance(a_, ast.Starred) for a_ in it.args)
+            if isinstance(t, ast.Name):
+                if t.id in found:
+                    dup.add(t.id)
+                if fn == "range":
+                    if len(it.args) == 1 and not it.keywords:
+                        found[t.id] = ("index",)
+                elif fn in ("enumerate", "zip"):
+                    pass
+                else:
+                    found[t.id] = ("elem", it)
+            elif isinstance(t, (ast.Tuple, ast.List)) and plain:
+                if fn == "enumerate" and len(t.elts) == 2 and len(it.args) == 1 and (not it.keywords or (len(it.keywords) == 1 and it.keywords[0].arg == "start" and isinstance(it.keywords[0].value, ast.Constant) and it.keywords[0].value.value == 0)):
+                    if isinstance(t.elts[0], ast.Name):
+                        found[t.elts[0].id] = ("index",)
+                    bind(t.elts[1], it.args[0])
+                elif fn == "zip" and len(t.elts) == len(it.args) and all(k.arg == "strict" for k in it.keywords):
+                    for t_, x_ in zip(t.elts, it.args):
+                        bind(t_, x_)
+
+        bind(lp.target, lp.iter)
+        return found.get(name) if name not in dup else None
+
+    def sym(e: ast.AST | None, at: ast.AST):
+        """An integer expression as a sympy term: loop positions are ``i``, other locals stand for their definition
+        (so ``n_dim`` and ``len(x_vect)`` are the same symbol)."""
+        if e is None:
+            return None
+        if isinstance(e, ast.Constant):
+            return sp.Integer(e.value) if type(e.value) is int else None
+        if isinstance(e, ast.UnaryOp) and isinstance(e.op, ast.USub):
+            v = sym(e.operand, at)
+            return None if v is None else -v
+        if isinstance(e, ast.BinOp) and isinstance(e.op, (ast.Add, ast.Sub, ast.Mult)):
+            l_, r_ = sym(e.left, at), sym(e.right, at)
+            if l_ is None or r_ is None:
+                return None
+            return l_ + r_ if isinstance(e.op, ast.Add) else l_ - r_ if isinstance(e.op, ast.Sub) else l_ * r_
+        if isinstance(e, ast.Name):
+            role = loop_roles(e.id, at)
+            if role is not None:
+                return I if role == ("index",) else None
+            if binders(e.id) and only_def(e.id) is None:
+                return None  # re-assigned local
         try:
-            idx_t = sp.sympify(norm_stmt(rd.slice), locals={**{k: v for k, v in env.items()}, **{str(s_): s_ for seg in segs for s_ in seg[1].free_symbols}})
+            ts = sv.texts(e) if cfg.has(e) else [norm_stmt(e)]
         except Exception:  # noqa: BLE001
-            idx_t = None
-        src = None
-        if idx_t is not None:
-            for off, size, source, var in segs:
-                i = sp.Symbol("i", integer=True, nonnegative=True)
-                if var is None and sp.simplify(idx_t - off) == 0:
-                    src = source
-                elif var is not None and sp.simplify(idx_t - (off + i)) == 0:
-                    src = source
-        seen[st.targets[0].id] = (src, st)
-    # the sequential branch says which array each value comes from
-    seq = {}
-    for st in stmts_of(f):
-        if isinstance(st, ast.Assign) and isinstance(st.targets[0], ast.Name) and isinstance(st.value, ast.Call) and last_attr(st.value) == "f_pointer" and st.value.args:
-            a = st.value.args[0]
-            seq[st.targets[0].id] = norm_stmt(a.value if isinstance(a, ast.Subscript) else a)
+            ts = [norm_stmt(e)]
+        if len(ts) != 1:
+            return None
+        t = ts[0]
+        if isinstance(e, ast.Name) and t == e.id and only_def(e.id) is not None:
+            return sym(only_def(e.id), at) if not isinstance(only_def(e.id), ast.Name) else None
+        return sp.Symbol(t, integer=True, positive=True)
+
+    # the task list: segments (size, element, source array, comprehension variable) in list order
+    segs: list[tuple] = []
+
+    def segments(e: ast.AST, at: ast.AST, depth: int = 0) -> list[tuple]:
+        if isinstance(e, ast.BinOp) and isinstance(e.op, ast.Add):
+            return segments(e.left, at, depth) + segments(e.right, at, depth)
+        if isinstance(e, (ast.List, ast.Tuple)):
+            out = []
+            for x in e.elts:
+                out += segments(x.value, at, depth) if isinstance(x, ast.Starred) else [(sp.Integer(1), x, norm_stmt(x), None)]
+            return out
+        if isinstance(e, ast.Call) and dotted(e.func) in ("list", "tuple") and len(e.args) == 1 and not e.keywords:
+            return segments(e.args[0], at, depth)
+        if isinstance(e, (ast.ListComp, ast.GeneratorExp)) and len(e.generators) == 1 and not e.generators[0].ifs and isinstance(e.generators[0].target, ast.Name) and isinstance(e.generators[0].iter, ast.Call) and dotted(e.generators[0].iter.func) == "range" and len(e.generators[0].iter.args) == 1 and not e.generators[0].iter.keywords:
+            n = sym(e.generators[0].iter.args[0], at)
+            if n is not None:
+                src = e.elt.value if isinstance(e.elt, ast.Subscript) else e.elt
+                return [(n, e.elt, norm_stmt(src), e.generators[0].target.id)]
+        if isinstance(e, ast.Name) and e.id != pts and depth < 4 and only_def(e.id) is not None:
+            return segments(only_def(e.id), at, depth + 1)
+        raise AnalysisError(f"compute_optimal_step: task list segment `{norm_stmt(e, 50)}` not understood")
+
+    pts = task_list.id if isinstance(task_list, ast.Name) else None
+    if pts is None:
+        segs = segments(task_list, ex[0])
+    else:
+        for st in stmts_of(f):
+            if isinstance(st, ast.Assign) and len(st.targets) == 1 and dotted(st.targets[0]) == pts:
+                v = st.value
+                if isinstance(v, ast.BinOp) and isinstance(v.op, ast.Add) and dotted(v.left) == pts:
+                    segs = segs + segments(v.right, st)
+                elif isinstance(v, ast.BinOp) and isinstance(v.op, ast.Add) and dotted(v.right) == pts:
+                    segs = segments(v.left, st) + segs
+                else:
+                    segs = segs + segments(v, st)
+            elif isinstance(st, ast.AugAssign) and dotted(st.target) == pts and isinstance(st.op, ast.Add):
+                segs = segs + segments(st.value, st)
+            elif isinstance(st, ast.Expr) and isinstance(st.value, ast.Call) and isinstance(st.value.func, ast.Attribute) and dotted(st.value.func.value) == pts:
+                c, m = st.value, st.value.func.attr
+                if m == "extend" and len(c.args) == 1 and not c.keywords:
+                    segs = segs + segments(c.args[0], st)
+                elif m == "append" and len(c.args) == 1 and not c.keywords:
+                    segs = segs + [(sp.Integer(1), c.args[0], norm_stmt(c.args[0]), None)]
+                else:
+                    raise AnalysisError(f"compute_optimal_step: task list changed by `{norm_stmt(st, 50)}`: not understood")
+            elif any(isinstance(t, ast.Name) and t.id == pts and isinstance(t.ctx, (ast.Store, ast.Del)) for t in ast.walk(st) if not isinstance(st, (ast.For, ast.While, ast.If, ast.With, ast.Try))):
+                raise AnalysisError(f"compute_optimal_step: task list bound by `{norm_stmt(st, 50)}`: not understood")
+    total = sum((s_[0] for s_ in segs), sp.Integer(0))
+    offsets = []
+    off = sp.Integer(0)
+    for s_ in segs:
+        offsets.append(off)
+        off += s_[0]
+
+    def same(a, b) -> bool:
+        return a is not None and b is not None and sp.simplify(a - b) == 0
+
+    def view_of(e: ast.AST, at: ast.AST, depth: int = 0) -> tuple | None:
+        """(offset, length) of a contiguous part of the outputs: the outputs, a slice of a part, a local bound to one."""
+        if depth > 4:
+            return None
+        if isinstance(e, ast.Name):
+            if e.id == out_var:
+                return (sp.Integer(0), total)
+            v = only_def(e.id)
+            return view_of(v, at, depth + 1) if v is not None else None
+        if isinstance(e, ast.Call) and dotted(e.func) in ("list", "tuple") and len(e.args) == 1 and not e.keywords:
+            return view_of(e.args[0], at, depth + 1)
+        if isinstance(e, ast.Subscript) and isinstance(e.slice, ast.Slice) and e.slice.step is None:
+            base = view_of(e.value, at, depth + 1)
+            if base is None:
+                return None
+            bounds = []
+            for b_, dflt in ((e.slice.lower, sp.Integer(0)), (e.slice.upper, base[1])):
+                v = dflt if b_ is None else sym(b_, at)
+                if v is None:
+                    return None
+                if v.is_negative:
+                    v = base[1] + v
+                elif not v.is_nonnegative:
+                    return None
+                bounds.append(v)
+            # (a bound beyond the end is clipped by Python; the symbolic sizes are those of the segments, so a slice
+            # that names a whole segment has bounds within the list)
+            return (base[0] + bounds[0], bounds[1] - bounds[0])
+        return None
+
+    def slot_of(e: ast.AST, at: ast.AST):
+        """(index in the outputs as a term in the loop position ``i``, length of the part iterated or None)."""
+        if isinstance(e, ast.Subscript) and not isinstance(e.slice, (ast.Slice, ast.Tuple)):
+            base = view_of(e.value, at)
+            k = sym(e.slice, at)
+            if base is None or k is None:
+                return None
+            if k.is_negative:
+                k = base[1] + k
+            return (base[0] + k, None)
+        if isinstance(e, ast.Name):
+            role = loop_roles(e.id, at)
+            if role is not None and role[0] == "elem":
+                base = view_of(role[1], at)
+                return None if base is None else (base[0] + I, base[1])
+        return None
+
+    def source_of(slot) -> str | None:
+        """The array (and element) whose image is stored in the slot: the segment of the task list the index falls in."""
+        idx, length = slot
+        for s_, o_ in zip(segs, offsets):
+            size, elt, source, var = s_
+            if var is None and same(idx, o_):
+                return source
+            if var is not None and same(idx, o_ + I) and (length is None or same(length, size)):
+                # element i of the segment is the image of element i of its source: the comprehension `src[.., v]`
+                return _element_text(elt, var)
+        return None
+
+    def values(e: ast.AST, at: ast.AST, depth: int = 0) -> list[tuple] | None:
+        """What an argument of the consumer stands for: ("par", source | None, node) for an output of the parallel
+        run, ("seq", source, node) for a direct evaluation ``f_pointer(point)``; None when it is neither."""
+        if isinstance(e, ast.Call) and last_attr(e) == "f_pointer" and e.args and not isinstance(e.args[0], ast.Starred):
+            a_ = e.args[0]
+            lv = [n_.id for n_ in ast.walk(a_) if isinstance(n_, ast.Name) and loop_roles(n_.id, at) == ("index",)]
+            return [("seq", _element_text(a_, lv[0] if lv else None), rules.enclosing_stmt(f, e) if cfg.has(e) else at)]
+        s = slot_of(e, at)
+        if s is not None:
+            return [("par", source_of(s), rules.enclosing_stmt(f, e) if cfg.has(e) else at)]
+        if isinstance(e, ast.Name) and depth < 4 and loop_roles(e.id, at) is None:
+            use = cfg.node_of(at)
+            defs = _reaching(cfg, binders(e.id), cfg.entry, use, set())
+            out = []
+            for d in defs:
+                st = cfg.ast[d] if d is not None else None
+                if not (isinstance(st, ast.Assign) and len(st.targets) == 1 and isinstance(st.targets[0], ast.Name)):
+                    return None
+                sub = values(st.value, st, depth + 1)
+                if sub is None:
+                    return None
+                out += sub
+            return out or None
+        return None
+
+    # consumers: calls some argument of which is an output of the parallel run / a direct evaluation
+    roles: dict[tuple, dict] = {}
+    for c in [c for c in walk_body(f) if isinstance(c, ast.Call) and cfg.has(c)]:
+        if last_attr(c) == "f_pointer" or is_parallel_execute(c):
+            continue
+        st = rules.enclosing_stmt(f, c)
+        try:
+            callee = "|".join(sv.texts(c.func))
+        except Exception:  # noqa: BLE001
+            callee = norm_stmt(c.func)
+        for key, a_ in [*enumerate(c.args), *[(k.arg, k.value) for k in c.keywords]]:
+            if isinstance(a_, ast.Starred) or key is None:
+                continue
+            vs = values(a_, st)
+            if vs:
+                r = roles.setdefault((callee, key), {"par": [], "seq": [], "label": a_.id if isinstance(a_, ast.Name) else f"argument {key} of {norm_stmt(c.func)}"})
+                for kind, source, node in vs:
+                    r[kind].append((source, node))
     n = 0
-    for name, want in sorted(seq.items()):
-        got = seen.get(name)
-        if got is None:
+    for key, r in sorted(roles.items(), key=lambda kv: kv[1]["label"]):
+        wants = sorted({s_ for s_, _ in r["seq"]})
+        if not r["par"] or len(wants) != 1:
             continue
         n += 1
-        ctx.ob("13.7-slots", con, got[0] == want, f"in the parallel branch `{name}` is read from the slot of `{got[0]}`; the sequential branch computes it at `{want}`: parallel and sequential optimal steps (and the gradients that use them) differ", node=got[1], stmt=f"parallel {name} read from the slot of {want}")
+        want, name = wants[0], r["label"]
+        for got, node in r["par"]:
+            ctx.ob("13.7-slots", con, got == want, f"in the parallel branch `{name}` is read from the slot of `{got}`; the sequential branch computes it at `{want}`: parallel and sequential optimal steps (and the gradients that use them) differ", node=node, stmt=f"parallel {name} read from the slot of {want}")
     ctx.ob("13.7-slots", con, n >= 3, "the three values (base, forward, backward) of the parallel branch were not all recognised", node=f, stmt="base, forward and backward slots recognised")
 
 
@@ -553,7 +782,8 @@ def check_parallel_chain_inputs(ctx: Ctx) -> None:
     for mname, callee in (("_execute", "parallel_execution"), ("_compute_jacobian", "parallel_lin")):
         g = ctx.index.method(_PCH, "MDOParallelChain", mname)
         ex = [c for c in walk_body(g) if isinstance(c, ast.Call) and last_attr(c) == "execute" and callee in norm_stmt(c.func)]
-        ok = len(ex) == 1 and ex[0].args and all(isinstance(a_, ast.Call) and last_attr(a_) == "_get_input_data_copies" for a_ in (unfolded(g, ex[0].args[0]) or [ex[0].args[0]]))
+        given = arg_or_kw(ex[0], 0, "inputs") if len(ex) == 1 else None  # execute(inputs, ...) of the executors
+        ok = given is not None and all(isinstance(a_, ast.Call) and last_attr(a_) == "_get_input_data_copies" for a_ in (unfolded(g, given) or [given]))
         ctx.ob("13.9-own-inputs", cname(_PCH, "MDOParallelChain", mname), bool(ok), "the parallel executor must be given the per-discipline copies", node=(ex or [g])[0], stmt=f"{callee}.execute(self._get_input_data_copies())")
 
 
